@@ -146,13 +146,15 @@ structure St where
   node0 : Node Nat := { ports := [], adapters := [], localPort := 0, cache := Cache.empty }
   node : Node Nat := { ports := [], adapters := [], localPort := 0, cache := Cache.empty }
 
-/-- digest after a history, or the first failure -/
-def runDigest (c : Cache Nat) : List (Op Nat) → String
-  | [] => cacheDigest c
-  | op :: ops =>
+/-- a refused call (`inconsistent`) leaves the cache as it was; any other failure ends the history -/
+def stepKeep (c : Except RErr (Cache Nat)) (op : Op Nat) : Except RErr (Cache Nat) :=
+  match c with
+  | .error e => .error e
+  | .ok c =>
     match step c op with
-    | .ok c' => runDigest c' ops
-    | .error e => "err:" ++ e.name
+    | .ok c' => .ok c'
+    | .error .inconsistent => .ok c
+    | .error e => .error e
 
 /-- DFS preorder over all words of length ≤ depth, sharing prefixes -/
 partial def enumCache (alpha : Array (Op Nat)) (depth : Nat) (c : Except RErr (Cache Nat))
@@ -160,10 +162,7 @@ partial def enumCache (alpha : Array (Op Nat)) (depth : Nat) (c : Except RErr (C
   let me : String := match c with | .ok c => cacheDigest c | .error e => "err:" ++ e.name
   let acc := acc.push (Json.str me)
   if depth = 0 then acc
-  else
-    alpha.foldl (fun acc op =>
-      let c' := match c with | .ok c => step c op | .error e => .error e
-      enumCache alpha (depth - 1) c' acc) acc
+  else alpha.foldl (fun acc op => enumCache alpha (depth - 1) (stepKeep c op) acc) acc
 
 def probeNode (n : Node Nat) (probes : List (Nat × Nat)) : Json :=
   -- all probes run one after the other on the same node (as on the real node)
@@ -220,8 +219,7 @@ def handle (st : St) (j : Json) : R (St × Json) := do
       let ops ← pre.mapM fun i => match alpha[i]? with
         | some o => pure o
         | none => throw "prefix index out of range"
-      let c0 : Except RErr (Cache Nat) := ops.foldl (fun c op =>
-        match c with | .ok c => step c op | .error e => .error e) (.ok Cache.empty)
+      let c0 : Except RErr (Cache Nat) := ops.foldl stepKeep (.ok Cache.empty)
       pure (st, jOk [("ds", Json.arr (enumCache alpha depth c0 #[]))])
   | "n" =>
       let ev ← evOfJson (← fld j "e")
